@@ -3,7 +3,7 @@
 ROOT=$(cd "$(dirname "$0")/.." && pwd)
 W=${1:-2}
 idle=0
-while [ $idle -lt 40 ]; do
+while [ $idle -lt 600 ]; do
   todo=()
   for d in /tmp/seed/C*/out/[0-9]*; do
     [ -f "$d/meta.json" ] && [ -f "$d/patch.diff" ] || continue
